@@ -60,6 +60,7 @@ type lifeScenario struct {
 	shutdownFired atomic.Bool
 	backlogMode   bool
 	triggerVia    string   // how the connection whose OnClose asks for shutdown gets closed
+	src, moment   string   // the case's shutdown source and moment (for witnesses)
 	preArmed      sync.Map // peer key -> struct{}: bystander connections the harness itself closes at once
 	tickShutdown  atomic.Bool
 }
@@ -276,7 +277,7 @@ func (s *lifeScenario) onClose(cs *connState, c gnet.Conn, err error) gnet.Actio
 	local, remote := cs.armedLocal.Load(), cs.armedRemote.Load()
 	switch {
 	case err == nil && !local:
-		s.mon.violate("C04 OnClose(nil) without a local close request plan="+d.plan, fmt.Sprintf("connection %d (plan %s): OnClose reported a nil error but nothing local asked for the close (remote cause armed: %v)", cs.tok, d.plan, remote))
+		s.mon.violate("C04 OnClose(nil) without a local close request plan="+d.plan, fmt.Sprintf("connection %d (plan %s): OnClose reported a nil error but nothing local asked for the close (remote cause armed: %v); case: shutdown source %q at %q, requested %v, fired %v, faults fired %d, Run returned %v, OnShutdown ran %d times; last system calls: %v", cs.tok, d.plan, remote, s.src, s.moment, s.shutdownArmed.Load(), s.shutdownFired.Load(), vsys.NFired(), s.mon.runReturned.Load() != 0, s.mon.shutdowns.Load(), vsys.LogTail(12)))
 	case err != nil && !remote:
 		s.mon.violate("C04 OnClose(err) without a peer or I/O cause plan="+d.plan, fmt.Sprintf("connection %d (plan %s): OnClose(%v) but no peer close/reset/I-O failure was provoked (local request armed: %v)", cs.tok, d.plan, err, local))
 	}
@@ -404,7 +405,7 @@ type lifeOpts struct {
 // runLifeCase runs one engine life with a mix of close causes and all end-of-life checks.
 func runLifeCase(c cfg, seed uint64, o lifeOpts, keys map[string]struct{}) (evals int64) {
 	r := vlib.NewRand(seed)
-	s := &lifeScenario{c: c, seed: seed, keys: keys}
+	s := &lifeScenario{c: c, seed: seed, keys: keys, src: o.shutdownFrom, moment: o.moment}
 	s.backlogMode = o.moment == "async-backlog" && (o.shutdownFrom == "OnTraffic" || o.shutdownFrom == "OnClose")
 	s.triggerVia = triggerVias[vlib.Mix(seed^0x7719)%uint64(len(triggerVias))]
 	if o.via != "" {
